@@ -44,6 +44,13 @@ def gen_cases(tier, seed):
             sup_ = [f_ + 1, f_ + 1] if wt_ == "int" else [f_ + 1.0, f_ + 1.0]
             cases.append({"cyc": False, "mode": "edge", "wt": wt_, "kdelta": 0, "knone": False, "ignore": [], "scale": [], "starts": [], "ends": [], "superset": sup_, "plr": None,
                           "spec": I.spec_of(hb), "exact_superset": True})
+    # corpus: integer weights asked for fractional data (weights are only required to be non-negative)
+    for fl in ([0.5, 0.75], [7.9, 7.9], [2.5, 0.25, 2.5]):
+        nodes = [str(i) for i in range(len(fl) + 1)]; edges = list(zip(nodes, nodes[1:]))
+        base = {"nodes": nodes, "edges": edges, "flow": dict(zip(edges, fl)), "planted": [], "wt": "int", "mode": "edge"}
+        for cyc_ in (False, True):
+            cases.append({"cyc": cyc_, "mode": "edge", "wt": "int", "kdelta": 0, "knone": False, "ignore": [], "scale": [], "starts": [], "ends": [], "superset": None,
+                          "plr": None, "spec": I.spec_of(base)})
     n = 260 if tier == "quick" else 3000
     for i in range(n):
         rng = gen.rng_for("C08", seed, i)
@@ -65,6 +72,11 @@ def gen_cases(tier, seed):
             base["flow"] = {e: f / 4 for e, f in base["flow"].items()}      # values < 1
         if rng.random() < 0.2:
             I.add_zero_elements(rng, base, n=rng.randint(1, 2))      # weights are only required to be non-negative
+        if wt == "int" and rng.random() < 0.06:
+            # integer weights and slacks asked for fractional data
+            for e in list(base["flow"]):
+                if rng.random() < 0.6:
+                    base["flow"][e] = base["flow"][e] + rng.choice([0.5, 0.25, 0.75, 0.9])
         elems = base["nodes"] if node else base["edges"]
         c = {"cyc": cyc, "mode": base["mode"], "wt": wt, "kdelta": rng.choice([0, 0, 1]), "knone": rng.random() < 0.12, "ignore": [], "scale": [], "starts": [], "ends": [],
              "superset": None, "plr": None}
@@ -339,6 +351,8 @@ def run_case(case):
             except ref.RefTimeout:
                 obs["c08.ref_timeout"] += 1
     side += [s for s, _ in M.ROUTES.drain()]
+    if wt == "int" and any(float(v) != int(v) for v in demand.values()):
+        obs["c08.int_type_fractional_data"] += 1      # integer weights and slacks on fractional data: same statement, same oracle
     seen = set(); out = []
     for v in viol:
         if v["sig"] not in seen:
